@@ -178,6 +178,11 @@ ScopeShapes(body) ==
              <<Elem("c", <<Attr("slot:", "x", SV("index"))>>, body)>>)>>)>> }
 F6 == {FileW(<<>>, <<>>, r) : r \in ScopeShapes(ProbeAll)}
       \cup {FileW(<<WxsM>>, <<>>, r) : r \in ScopeShapes(ProbeAll)}
+      (* the same scope shapes inside the body of a template definition (which sees script modules and its own
+         data only), in a file with and without a script module *)
+      \cup {FileW(w, <<[n |-> "t", ch |-> r]>>,
+                  <<TmplIs(SV("t"), EV(Obj(<<Short("x"), Short("y"), Short("item"), Short("index"), Short("l"), Short("l2"), Short("o")>>)))>>) :
+               r \in ScopeShapes(ProbeAll), w \in {<<>>, <<WxsM>>}}
       \cup {FileW(<<WxsM>>, <<[n |-> "t", ch |-> ProbeAll]>>,
                   <<For(EV(Id("l")), "x", "y", "", <<TmplIs(SV("t"), EV(Obj(<<Named("y", Id("x"))>>)))>>)>>)}
       \cup UNION { {FileW(<<>>, <<>>, <<For(EV(Id("l")), "x", "index", "", <<Text(<<S("["), P(e), S("]")>>)>>)>>) :
